@@ -452,7 +452,7 @@ fn main() {
             let op = match rng.below(12) {
                 0..=2 => {
                     let s = rng.range(1, max_slot);
-                    let h = if rng.chance(3, 4) { s } else { next_h += 1; 100 + next_h };
+                    let h = if rng.chance(3, 4) { chain_id(s) } else { next_h += 1; chain_id(s) + 1 + next_h % 3 };
                     DOp::Nf((s, h))
                 }
                 3..=7 => {
